@@ -140,6 +140,27 @@ fn real_main(args: &[String]) -> i32 {
       debug_feel(&args[1..]);
       0
     }
+    "debug-fuzz" => {
+      let n: u64 = args.get(1).and_then(|s| s.parse().ok()).unwrap_or(20);
+      let mut ok = 0;
+      for i in 0..n {
+        let body = c18::debug_builtin_body(i * 7919 + 13);
+        let r = std::panic::catch_unwind(|| dmntk_feel_evaluator::evaluate_context(&dmntk_feel::Scope::default(), &body));
+        let shown = match &r {
+          Ok(Ok(c)) => {
+            ok += 1;
+            format!("=> {}", c.to_string().chars().take(100).collect::<String>())
+          }
+          Ok(Err(e)) => format!("=> error {}", e.to_string().chars().take(80).collect::<String>()),
+          Err(_) => "=> PANIC".to_string(),
+        };
+        if i < 40 {
+          println!("{}  {}", body.chars().take(150).collect::<String>(), shown);
+        }
+      }
+      println!("{} of {} bodies evaluate to a context", ok, n);
+      0
+    }
     "debug-facts" => {
       debug_facts();
       0
